@@ -280,6 +280,34 @@ def generate_and_run(tier, seed, wdir):
         ev.append({"e": "xeq", "props": ["C18"], "tag": "C-f-builddir", "a": [rc, okfiles, "ran 2 tasks" in out.decode()], "b": [0, True, True]})
         rc, out = run_n2(n2, os.path.join(base, "proj"), ["-f", "alt.ninja"])
         ev.append({"e": "xeq", "props": ["C18", "C03"], "tag": "C-f-builddir-noop", "a": [rc, "no work to do" in out.decode()], "b": [0, True]})
+        # 8b. record shapes (C08): many discovered deps, long and non-ASCII paths, many outputs
+        for ndeps in ([0, 1, 255, 65535, 65536, 70000] if tier == "thorough" else [1, 255, 65535, 65536]):
+            base = os.path.join(root, "big%d" % ndeps); shutil.rmtree(base, ignore_errors=True)
+            os.makedirs(os.path.join(base, "hdr"))
+            longname = "hdr/" + "L" * 200 + "-\u00e9\u20ac.h"
+            names = ["hdr/h%d.h" % i for i in range(max(0, ndeps - 1))] + ([longname] if ndeps else [])
+            for nm in names:
+                open(os.path.join(base, nm), "w").close()
+            with open(os.path.join(base, "deps.list"), "w") as f:
+                f.write("o1: " + " \\\n ".join(names) + "\n")
+            outs = " ".join("o%d" % i for i in range(1, 6))
+            man = ("rule cc\n  command = cp deps.list o1.d && touch %s\n  depfile = o1.d\n"
+                   "build %s: cc src\nrule t\n  command = touch $out\nbuild other: t o1\n") % (outs, outs)
+            open(os.path.join(base, "build.ninja"), "w").write(man)
+            open(os.path.join(base, "src"), "w").close()
+            ev.append({"e": "xscn", "id": "bigrec-%d" % ndeps})
+            r1, o1 = run_n2(n2, base, ["-j", "1"], timeout=300)
+            r2, o2 = run_n2(n2, base, ["-j", "1"], timeout=300)
+            ev.append({"e": "xeq", "props": ["C08"], "tag": "record-%d-deps-reloaded" % ndeps,
+                       "a": [r1, r2, "no work to do" in o2.decode("utf-8", "replace")], "b": [0, 0, True]})
+            if names:
+                for which in (names[0], names[-1]):
+                    p = os.path.join(base, which)
+                    st = os.stat(p)
+                    os.utime(p, ns=(st.st_atime_ns, st.st_mtime_ns + 7_000_000_000))
+                    r3, o3 = run_n2(n2, base, ["-j", "1"], timeout=300)
+                    ev.append({"e": "xeq", "props": ["C08"], "tag": "record-%d-deps-dirty" % ndeps,
+                               "a": [r3, "ran 2 tasks" in o3.decode("utf-8", "replace")], "b": [0, True]})
         # 9. a tty changes nothing about the build (C20 isolation clause)
         for cols in (10, 11, 20, 80):
             desc = "übergroße Beschreibung — ☃☃☃☃☃☃☃☃☃☃ 𝄞𝄞𝄞 long enough to be cut somewhere"
